@@ -787,6 +787,12 @@ func MakeConnWithCompleteHandshake(tcpConn net.Conn, version uint16, cipherSuite
 			clientHash = cs.mac(clientMAC)
 			serverCipher = cs.cipher(serverKey, serverIV, false /* not for reading */)
 			serverHash = cs.mac(serverMAC)
+			if isClient {
+				// A forged client writes with the client keys and reads with the
+				// server keys, so the cipher directions are the other way round.
+				clientCipher = cs.cipher(clientKey, clientIV, false /* not for reading */)
+				serverCipher = cs.cipher(serverKey, serverIV, true /* for reading */)
+			}
 		} else {
 			clientCipher = cs.aead(clientKey, clientIV)
 			serverCipher = cs.aead(serverKey, serverIV)
